@@ -1,0 +1,63 @@
+//go:build verif
+
+package bondgo
+
+import (
+	"os"
+	"runtime"
+	"strconv"
+	"strings"
+	"sync"
+	"time"
+)
+
+// Schedule perturbation for verification builds (-tags verif).
+//
+// VERIF_BONDGO_SCHED is a comma separated list of point=k entries. At the named point the calling
+// goroutine yields k times (point=3) or sleeps k microseconds (point=300us) before going on, so that
+// an interleaving of Var_assigner, Usage_Monitor and the visitor can be forced deterministically.
+// Points: "assigner.notify" (before every usage notification sent by Var_assigner) and
+// "monitor.done" (before Usage_Monitor reports its end). An empty or unset variable perturbs nothing.
+
+type verifDelay struct {
+	yields int
+	sleep  time.Duration
+}
+
+var (
+	verifOnce sync.Once
+	verifPlan map[string]verifDelay
+)
+
+func verifLoad() {
+	verifPlan = make(map[string]verifDelay)
+	for _, entry := range strings.Split(os.Getenv("VERIF_BONDGO_SCHED"), ",") {
+		kv := strings.SplitN(strings.TrimSpace(entry), "=", 2)
+		if len(kv) != 2 {
+			continue
+		}
+		if us := strings.TrimSuffix(kv[1], "us"); us != kv[1] {
+			if n, err := strconv.Atoi(us); err == nil && n > 0 {
+				verifPlan[kv[0]] = verifDelay{sleep: time.Duration(n) * time.Microsecond}
+			}
+			continue
+		}
+		if n, err := strconv.Atoi(kv[1]); err == nil && n > 0 {
+			verifPlan[kv[0]] = verifDelay{yields: n}
+		}
+	}
+}
+
+func verifPoint(name string) {
+	verifOnce.Do(verifLoad)
+	d, ok := verifPlan[name]
+	if !ok {
+		return
+	}
+	if d.sleep > 0 {
+		time.Sleep(d.sleep)
+	}
+	for i := 0; i < d.yields; i++ {
+		runtime.Gosched()
+	}
+}
